@@ -168,7 +168,7 @@ def main():
             "name": "coq-model",
             "path": "/verif/coq",
             "serves_properties": sorted(CLAIMED),
-            "kind_free_text": "hand-written executable Gallina model + theorems (Coq 8.16.1), Tables.v regenerated from the live /repo on every run, model extracted to OCaml and run against the implementation on generated inputs; implementation-side oracles search for failing inputs",
+            "kind_free_text": "hand-written executable Gallina model + theorems (Coq 8.16.1), Tables.v (enums, code tables, source literals read with ast) and the translated rate-law sources RateLive.v / GrainLive.v regenerated from the live /repo on every run, model extracted to OCaml and run against the implementation on generated inputs; implementation-side oracles search for failing inputs",
         }],
         "checks": checks,
         "not_applicable": na,
